@@ -19,6 +19,8 @@ tree; exit 1 is a false alarm, exit 2 a rule that pinned the text instead of the
   T12 de-morgan    a and b -> not (not a or not b), a or b -> not (not a and not b)  (branch tests)
   T13 if-to-ifexp  if c: x = a else: x = b -> x = a if c else b (also for two returns)
   T14 ifexp-to-if  the reverse
+  T15 loop-to-comprehension  xs = []; for a in it: [if c:] xs.append(e) -> xs = [e for a in it if c]
+  T16 comprehension-to-loop  the reverse (assignments to a plain name inside functions)
   T9 negate-eq     a != b -> not (a == b), a is not b -> not (a is b), a not in b -> not (a in b)
 
 Usage: tools/metamorph.py [T1 T3 ...] [--tier quick|thorough|both] [--props C01,C07] [--bisect]
@@ -368,6 +370,94 @@ class IfExpToIf(ast.NodeTransformer):
         return node
 
 
+class LoopToComp(ast.NodeTransformer):
+    """xs = []; for a in it: [if c:] xs.append(e)   ->   xs = [e for a in it if c]"""
+
+    def _fix(self, body):
+        out, i = [], 0
+        while i < len(body):
+            st, nxt = body[i], (body[i + 1] if i + 1 < len(body) else None)
+            if (isinstance(st, ast.Assign) and len(st.targets) == 1 and isinstance(st.targets[0], ast.Name) and isinstance(st.value, ast.List) and not st.value.elts
+                    and isinstance(nxt, ast.For) and not nxt.orelse and len(nxt.body) == 1):
+                xs = st.targets[0].id
+                inner, cond = nxt.body[0], None
+                if isinstance(inner, ast.If) and not inner.orelse and len(inner.body) == 1:
+                    cond, inner = inner.test, inner.body[0]
+                if (isinstance(inner, ast.Expr) and isinstance(inner.value, ast.Call) and isinstance(inner.value.func, ast.Attribute) and inner.value.func.attr == "append"
+                        and isinstance(inner.value.func.value, ast.Name) and inner.value.func.value.id == xs and len(inner.value.args) == 1
+                        and not any(isinstance(x, ast.Name) and x.id == xs for x in ast.walk(inner.value.args[0]))
+                        and not (cond is not None and any(isinstance(x, ast.Name) and x.id == xs for x in ast.walk(cond)))
+                        and not any(isinstance(x, (ast.Yield, ast.Await, ast.NamedExpr)) for x in ast.walk(nxt))):
+                    comp = ast.ListComp(elt=inner.value.args[0], generators=[ast.comprehension(target=nxt.target, iter=nxt.iter, ifs=[cond] if cond is not None else [], is_async=0)])
+                    out.append(ast.Assign(targets=st.targets, value=comp, lineno=st.lineno))
+                    i += 2
+                    continue
+            out.append(st)
+            i += 1
+        return out
+
+    def generic_visit(self, node):
+        super().generic_visit(node)
+        for fld in ("body", "orelse", "finalbody"):
+            b = getattr(node, fld, None)
+            if isinstance(b, list) and b and isinstance(b[0], ast.stmt):
+                setattr(node, fld, self._fix(b))
+        return node
+
+
+class CompToLoop(ast.NodeTransformer):
+    """xs = [e for a in it if c]   ->   xs = []; for a in it: if c: xs.append(e)    (single generator, plain name target of the assignment,
+    inside functions only; the comprehension variable must not clash with a name of the function)"""
+
+    def visit_FunctionDef(self, node):
+        self.names = {x.id for x in ast.walk(node) if isinstance(x, ast.Name)} | {a.arg for a in ast.walk(node) if isinstance(a, ast.arg)}
+        self.comp_names = {}
+        for x in ast.walk(node):
+            if isinstance(x, ast.comprehension):
+                for t in ast.walk(x.target):
+                    if isinstance(t, ast.Name):
+                        self.comp_names[t.id] = self.comp_names.get(t.id, 0) + 1
+        self.in_fn = getattr(self, "in_fn", 0) + 1
+        self.generic_visit(node)
+        self.in_fn -= 1
+        return node
+
+    def _fix(self, body):
+        out = []
+        for st in body:
+            if (getattr(self, "in_fn", 0) and isinstance(st, ast.Assign) and len(st.targets) == 1 and isinstance(st.targets[0], ast.Name) and isinstance(st.value, ast.ListComp)
+                    and len(st.value.generators) == 1 and not st.value.generators[0].is_async):
+                g = st.value.generators[0]
+                tn = [t.id for t in ast.walk(g.target) if isinstance(t, ast.Name)]
+                xs = st.targets[0].id
+                uses_xs = any(isinstance(x, ast.Name) and x.id == xs for x in ast.walk(st.value))
+                # the loop variable leaks into the function scope: only when it is used nowhere else under that name
+                clash = any(sum(1 for x in ast.walk(ast.Module(body=body, type_ignores=[])) if isinstance(x, ast.Name) and x.id == t) and t in self.names and
+                            sum(1 for x in ast.walk(st) if isinstance(x, ast.Name) and x.id == t) != sum(1 for x in ast.walk(ast.Module(body=[s_ for s_ in body], type_ignores=[])) if isinstance(x, ast.Name) and x.id == t)
+                            for t in tn)
+                nested = any(isinstance(x, (ast.ListComp, ast.SetComp, ast.DictComp, ast.GeneratorExp, ast.Lambda)) for x in ast.walk(st.value.elt)) or \
+                    any(isinstance(x, (ast.ListComp, ast.SetComp, ast.DictComp, ast.GeneratorExp, ast.Lambda)) for i_ in g.ifs for x in ast.walk(i_))
+                if not uses_xs and not clash and not nested:
+                    app = ast.Expr(value=ast.Call(func=ast.Attribute(value=ast.Name(id=xs, ctx=ast.Load()), attr="append", ctx=ast.Load()), args=[st.value.elt], keywords=[]))
+                    inner = [app]
+                    if g.ifs:
+                        test = g.ifs[0] if len(g.ifs) == 1 else ast.BoolOp(op=ast.And(), values=list(g.ifs))
+                        inner = [ast.If(test=test, body=[app], orelse=[])]
+                    out.append(ast.Assign(targets=st.targets, value=ast.List(elts=[], ctx=ast.Load()), lineno=st.lineno))
+                    out.append(ast.For(target=g.target, iter=g.iter, body=inner, orelse=[], lineno=st.lineno))
+                    continue
+            out.append(st)
+        return out
+
+    def generic_visit(self, node):
+        super().generic_visit(node)
+        for fld in ("body", "orelse", "finalbody"):
+            b = getattr(node, fld, None)
+            if isinstance(b, list) and b and isinstance(b[0], ast.stmt):
+                setattr(node, fld, self._fix(b))
+        return node
+
+
 TRANSFORMS = {
     "T0": ("reformat", None),
     "T1": ("swap-compare", SwapCompare),
@@ -384,6 +474,8 @@ TRANSFORMS = {
     "T12": ("de-morgan", DeMorgan),
     "T13": ("if-to-ifexp", IfToIfExp),
     "T14": ("ifexp-to-if", IfExpToIf),
+    "T15": ("loop-to-comprehension", LoopToComp),
+    "T16": ("comprehension-to-loop", CompToLoop),
 }
 
 
